@@ -28,6 +28,7 @@ CLAIM = (
     "accumulated defaults, rejected device requests leave device and store unchanged, and leaving `with set(...)` restores "
     "the pre-entry values (also when one call writes the same entry twice, and for keys up to four levels deep); deeper histories are covered by deviation bounding (length 8, at most 1/2 positions replaced by any other event). Model checking is the right level because the property is about every history of a small state machine."
     ' The alphabet also holds ties (setting the value a later block writes; equal values of another type, compared with their types), with-blocks whose body runs update_defaults / refresh / a plain set on the same key / a nested block / raises, and the reference model carries the undo log the documentation describes.'
+    " The alphabet also holds keys that differ from another key in case only, numeric-looking and non-ASCII keys, falsy values (0, '', False) as values and defaults, and a BaseException that is no Exception leaving a with-block."
 )
 NOTE = (
     "Trusted: the reference model in checks/C19.py (about 60 lines), the event alphabet (about 80 events over a 25-key universe) and the "
